@@ -98,6 +98,8 @@ class Builder:
             return self.world[t[1]][t[2]]
         if k == "lb":           # ("lb", "True"/"False"): a boolean constant (kept apart from 1 / 0 in case keys)
             return t[1] == "True"
+        if k == "lfs":          # ("lfs", 1, 2): the constant frozenset({1, 2})
+            return frozenset(self.inst.v(e) for e in t[1:])
         if k == "ck":
             return getattr(self.term(t[1]), t[2])(*[self.inst.v(a) for a in t[3]], **{n: self.inst.v(a) for n, a in t[4]})
         if k in ("fl", "cc"):
@@ -235,6 +237,8 @@ class Ref:
             return self.world[t[1]][t[2]]
         if k == "lb":
             return t[1] == "True"
+        if k == "lfs":
+            return frozenset(self.inst.v(e) for e in t[1:])
         if k == "ck":
             return getattr(self.value(t[1], env), t[2])(*[self.inst.v(a) for a in t[3]],
                                                         **{n: self.inst.v(a) for n, a in t[4]})
@@ -373,6 +377,8 @@ def up_term(t, inst):
         return f"{t[1]}[{t[2]}]"
     if k == "lb":
         return t[1]
+    if k == "lfs":
+        return "frozenset({" + ", ".join(repr(inst.v(e)) for e in t[1:]) + "})"
     if k == "ck":
         args = [repr(inst.v(a)) for a in t[3]] + [f"{n}={inst.v(a)!r}" for n, a in t[4]]
         return f"{up_term(t[1], inst)}.{t[2]}({', '.join(args)})"
